@@ -202,6 +202,10 @@ fn progs_for(front: &str, tier: Tier) -> Vec<(Program, Mode)> {
     add("maint-ensure|ensure-j", cfg(2), crowd(&home), vec![vec![api(Op::Ensure(k.clone(), Pop::Value(v(0, 0, Size::Five))))], vec![api(Op::Ensure(j.clone(), Pop::Value(v(1, 0, Size::Five))))]], false, true, b2);
     add("shared-set|put|get", cfg(roomy), vec![], vec![vec![api(Op::Set(k.clone(), v(0, 0, big)))], vec![api(Op::Put(k.clone(), v(1, 0, Size::Five)))], vec![api(Op::Get(k.clone()))]], true, false, b2);
     add("touch|set|get", cfg(roomy), vec![planted(&home, Val::new(0, Size::Five), false, 1)], vec![vec![api(Op::Touch(k.clone()))], vec![api(Op::Set(k.clone(), v(1, 0, big)))], vec![api(Op::Get(k.clone()))]], false, false, b2);
+    // the entry a filler has just published is removed (an eviction, a cleaner) before the filler re-opens it: whatever
+    // handle it falls back on reads as the whole value
+    add("ensure|deleter-big", cfg(roomy), vec![], vec![vec![api(Op::Ensure(k.clone(), Pop::Value(v(0, 0, big))))], vec![POp::Unlink(home.clone())]], false, false, b2);
+    add("accept-miss|deleter", cfg(roomy), vec![], vec![vec![api(Op::Gou(k.clone(), crate::ops::Act::Accept, Pop::Value(v(0, 0, Size::Five))))], vec![POp::Unlink(home.clone())]], false, false, b2);
     let _ = homej;
     if front == "stack" {
         // promotion after the judge (and, with a checker, the comparison) consumed the read-only hit: what ends up
